@@ -317,6 +317,14 @@ func c07(args []string) {
 		}
 		cases = append(cases, c07Case{c07Event{Fam: "other", Type: typ, Len: L, Fill: "random", TsKind: "any"}, tr.Frame(gen.Payload(rng, typ, L, i%4))})
 	}
+	// a frame that lacks its last 1..8 bytes (exactly as long as the slice: nothing behind it), given to every entry point
+	for k, f := range [][]byte{gen.Frame(rng, 1005, 19, 0), gen.Frame(rng, 1077, 60, 0), gen.Frame(rng, 1230, 5, 0), gen.Frame(rng, 1074, 1, 0), gen.Frame(rng, 1006, 21, 2)} {
+		for cut := 1; cut <= 8 && cut < len(f); cut++ {
+			t := make([]byte, len(f)-cut)
+			copy(t, f)
+			cases = append(cases, c07Case{c07Event{Fam: "truncated", Type: []int{1005, 1077, 1230, 1074, 1006}[k], Len: len(t), Fill: "random", TsKind: "any"}, t})
+		}
+	}
 	runGuarded(w, cases)
 
 	// the same frames as one stream through HandleMessages, displaying every message
